@@ -241,6 +241,10 @@ impl Prop for C02 {
         if rng.chance(0.3) {
             cfg.profile = prog::Profile::Libm;
         }
+        if rng.chance(0.03) {
+            cfg = GenCfg::wide_sweep(rng);
+            st.inc("width_sweep_programs");
+        }
         let mut base = prog::generate(rng, &cfg);
         if rng.chance(0.04) {
             // constant-only function: zero variables
